@@ -14,6 +14,7 @@ String / Time behave as their doc comments say (spec/Converter.tla, spec/Coerce.
 (c) harness/cmd/xconv runs the real code and records projections and standard-library facts; TraceConverter and
     TraceCoerce judge every call.  The verdict is TLC's.
 """
+import concurrent.futures as cf
 import json
 import os
 import random
@@ -200,10 +201,11 @@ def tlc_cases(ctx):
 
 
 def main(ctx):
-    # (a) design checks
-    ctx.design("ConverterMC", "ConverterMC.cfg", workers=4, timeout=600, coverage=not ctx.quick)
-    ctx.design("ConverterMC", "ConverterMC_order.cfg", workers=1, timeout=600, expect_violation="OrderIrrelevant")
-    ctx.design("Coerce", "Coerce_mc.cfg", workers=4, timeout=900, heap="6g")
+    # (a) design checks (run beside the case pipeline; joined before the verdict)
+    pool = cf.ThreadPoolExecutor(3)
+    designs = [pool.submit(ctx.design, "ConverterMC", "ConverterMC.cfg", workers=2, timeout=600, coverage=not ctx.quick),
+               pool.submit(ctx.design, "ConverterMC", "ConverterMC_order.cfg", workers=1, timeout=600, expect_violation="OrderIrrelevant"),
+               pool.submit(ctx.design, "Coerce", "Coerce_mc.cfg", workers=4, timeout=900, heap="6g")]
     # (b) cases
     co, cv = tlc_cases(ctx)
     xb = ctx.build("xconv")
@@ -219,6 +221,9 @@ def main(ctx):
     recs = judge(ctx, cases)
     for r in recs:
         ctx.add(r["api"], r["kind"], r["locus"], r["witness"], case=r["case"], detail=r.get("detail"))
+    for d in designs:
+        d.result()          # raises Infra if a spec-internal law failed or TLC crashed
+    pool.shutdown()
     cells = ctx.cov.get("cells_hit") or {}
     need = ["Bool/native", "Bool/str-exact", "Bool/unconvertible", "Int/native", "Int/float-whole", "Int/float-frac", "Int/str-int", "Int/str-other",
             "Int/time", "Int/nil", "Float/native", "Float/int", "Float/str-float", "String/native", "String/int", "String/float64", "String/time",
